@@ -133,10 +133,16 @@ def c07(tier):
                     evaluations=cr["evaluations"] + ch["presentations"], distinct_nontrivial=cr["distinct_nontrivial"] + ch["batches"],
                     samples=cr["samples"] + [dict(program=ch["sample"])], exhaustive=cr["exhaustive"],
                     rule="handshake part: (a) raw server replies and proxy CONNECT replies = status-line form x status code x "
-                         "header-block form (TLC initial states), each truncated at every byte offset (long forms: first/last 96 "
-                         "bytes and every 997th offset); (b) header values: every class string up to the stated length over the "
-                         "11-class alphabet x context x header x side, 3 concretisations each; oracle: any normal result or error "
-                         "return, PANIC/HANG/ALLOC events are unexplainable",
+                         "header-block form (TLC initial states), plus replies that DECLARE a body length (0 .. 2^63, -1, abc; a "
+                         "256 MiB chunk) and deliver none / three / all of it, for refusing statuses and a 101 with a wrong Accept; "
+                         "each truncated at every byte offset (long forms: first/last 96 bytes and every 997th offset); allocation "
+                         "of a dial bounded by 8 x bytes received + 6 MiB; (b) header values: every class string up to the stated "
+                         "length over the 11-class alphabet x context x header x side, 3 concretisations each, plus long structured "
+                         "values (base64 text of lengths 0..1024 with every padding and one invalid character first / middle / "
+                         "last; runs of tokens, commas, quotes, backslashes, parameters, extension elements, origin URLs up to 4 KiB, "
+                         "thorough 1 MiB) for every header in every context, allocation bounded by 64 x bytes presented + 256 KiB "
+                         "per presentation + 4 MiB; oracle: any normal result or error return, PANIC/HANG/ALLOC events are "
+                         "unexplainable",
                     parts=cov)
     if frames:
         r = frames(tier)
@@ -168,7 +174,11 @@ INFO = {
     "C14": dict(
         text="Exhaustive TLC model check of the bounded client-handshake model (WSDialMC over MC_C14: reply product status x Upgrade x "
              "Connection x Accept{right, OWS, stale from the previous dial, other key, the key itself, case-mangled, truncated, empty, "
-             "absent, duplicated} x body x extension header; URLs scheme x userinfo x host form x path/query x fragment; caller header "
+             "absent, duplicated} x body x extension header; refusing replies with bodies of 0/1/10/1023/1024/1025/3000 bytes, with and "
+             "without Content-Length or declaring more than is sent, handed to the transport in 1-3 segments cut inside the final "
+             "CRLFCRLF / behind it / inside the body / at byte 1024, x Dialer.ReadBufferSize {0, 1, 256, 8192; thorough up to 65536}; "
+             "URLs scheme x userinfo {none, user, user:password, :password, :, bare @} x host form x path/query x fragment, the "
+             "userinfo forms also with an http / socks5 proxy configured (no proxy lookup); caller header "
              "maps incl. every protocol-owned header; Dialer settings; histories of 2-3 dials) with ConnOnlyIfProven, "
              "BadReplyIsErrBadHandshakeWithResponse, KeyFreshPerDial, RefusedBeforeNetwork as invariants and the refinement 'strict "
              "generator within envelope'; every abstract program is executed on the real Dialer against a scripted server and the "
@@ -180,7 +190,8 @@ INFO = {
         technique="TLA+ model (WSDial) checked with TLC; TLC-generated programs replayed on the real code; trace validation with TLC"),
     "C16": dict(
         text="Exhaustive TLC model check of the dial-path machine (WSDialMC over MC_C16: {direct, http proxy, https proxy, socks5} x "
-             "{ws, wss} x dial hooks x {no timeout, HandshakeTimeout, context deadline, both} x reply / proxy-reply / certificate "
+             "{ws, wss} x dial hooks x {no timeout, HandshakeTimeout, context deadline, both with the context deadline earlier, both "
+             "with the HandshakeTimeout earlier} x reply / proxy-reply / certificate "
              "classes x every abstract transport-operation index x fault kind) with FailureClosesObtainedConn, SuccessOpenNoDeadline, "
              "EveryOpUnderDeadline as invariants; each program is executed on the real Dialer once per CONCRETE transport-operation "
              "index k of the real execution (Read, Write, SetDeadline, Close on the connection returned by the dial hook, TLS layers "
@@ -188,7 +199,8 @@ INFO = {
              "run is validated by TLC against WSDial!DialAllowed (ResultSane, FaultFails, DeadlineOK). Server part: "
              "engine.props_upgrade.c16_server (WSUpgrade).",
         note=DNOTE + "The deadline clause is decided behaviourally: a stalled operation must end through the armed connection deadline "
-             "(no later than the configured one) or through Close, within 3 s slack; the close_notify write of a failed dial's TLS "
+             "(compared as instants with the earliest configured one: min(context deadline, hook time + HandshakeTimeout)) or through "
+             "Close, within 3 s slack; the close_notify write of a failed dial's TLS "
              "layer is exempt (crypto/tls bounds it by 5 s).",
         technique="TLA+ model (WSDial, WSUpgrade) checked with TLC; fault enumeration over every transport operation of TLC-generated "
                   "programs on the real code; trace validation with TLC"),
